@@ -45,6 +45,7 @@ def kernel_obligations(P, nbits, order, L):
         s.add(bad)
         P.stats.queries += 1
         r = s.check()
+        P.stats.note_query(s.assertions(), r)
         if r == z3.unsat:
             P.obligation(f"{name}[{tag}]", "holds", symbolic=symbolic)
             return None
